@@ -62,7 +62,7 @@ def musig_cases(tier):
         "secrets": st.lists(gen.uniform_int(1, N - 1), min_size=n, max_size=n, unique=True),
         "nonces": st.lists(st.tuples(gen.secrets(), gen.secrets()), min_size=n, max_size=n),
         "msg": gen.b32(),
-        "root": st.one_of(st.none(), st.binary(min_size=32, max_size=32)),
+        "root": st.one_of(st.none(), gen.rand_bytes(32)),
         "perm": st.permutations(list(range(n))),
         "fault": st.sampled_from(["omit", "alter", "alter_small", "swap_nonce_share", "double"]),
         "who": st.integers(0, n - 1),
